@@ -322,6 +322,26 @@ fn serde_run<T: Kind>(req: &Value) -> Value
 where
     GenericPurl<T>: for<'de> serde::Deserialize<'de> + serde::Serialize,
 {
+    if !req["value"].is_null() {
+        // a value of the serde data model handed to Deserialize directly (kinds JSON cannot express, e.g. bytes)
+        use serde::de::value::{BorrowedStrDeserializer, BytesDeserializer, Error as VErr, StrDeserializer, StringDeserializer};
+        use serde::Deserialize;
+        let payload = hex::decode(req["value"]["payload"].as_str().unwrap_or("")).unwrap();
+        let text = String::from_utf8_lossy(&payload).to_string();
+        let r: Result<GenericPurl<T>, VErr> = match req["value"]["kind"].as_str().unwrap_or("") {
+            "bytes" => GenericPurl::<T>::deserialize(BytesDeserializer::<VErr>::new(&payload)),
+            "str" => GenericPurl::<T>::deserialize(StrDeserializer::<VErr>::new(&text)),
+            "borrowed_str" => GenericPurl::<T>::deserialize(BorrowedStrDeserializer::<VErr>::new(&text)),
+            "string" => GenericPurl::<T>::deserialize(StringDeserializer::<VErr>::new(text.clone())),
+            k => return json!({"unsupported": format!("value kind {}", k)}),
+        };
+        let direct_ok = matches!(T::parse(&text), Some(Ok(_)));
+        return match r {
+            Ok(p) => json!({"de": {"ok": observe(&p)}, "value_kind": req["value"]["kind"], "from_str_ok": direct_ok,
+                            "same_as_from_str": match T::parse(&text) { Some(Ok(q)) => q == p, _ => false }}),
+            Err(e) => json!({"de": {"err": e.to_string()}, "value_kind": req["value"]["kind"], "from_str_ok": direct_ok}),
+        };
+    }
     let js = unhex(&req["json"]);
     match serde_json::from_str::<GenericPurl<T>>(&js) {
         Ok(p) => {
@@ -421,6 +441,22 @@ fn handle(req: &Value) -> Value {
                 }
             }
             let mut v = dispatch_kind(req, false);
+            // combined name of the built value fed back through the constructor (C18, builder-made values)
+            if let Ok(t) = purl::PackageType::from_str(&unhex(&req["type"])) {
+                let mut b = purl::Purl::builder(t, unhex(&req["name"]));
+                for st in req["steps"].as_array().map(|v| v.as_slice()).unwrap_or(&[]) {
+                    if st[0] == "with_namespace" {
+                        b = b.with_namespace(unhex(&st[1]));
+                    } else if st[0] == "with_name" {
+                        b = b.with_name(unhex(&st[1]));
+                    }
+                }
+                if let Ok(p) = b.build() {
+                    let cn = p.combined_name().to_string();
+                    let b2 = purl::Purl::builder_with_combined_name(t, cn.as_str());
+                    v["combined_again"] = json!({"combined": hx(&cn), "ns": hx(&b2.parts.namespace), "name": hx(&b2.parts.name)});
+                }
+            }
             v["expect_lower"] = json!(hx(&name_lower(&name)));
             v["expect_pypi"] = json!(hx(&pypi_norm(&name)));
             v
